@@ -172,11 +172,19 @@ func scenario(seed uint64, idx int, tier string, root string, fixed string, enc 
 			}
 		}
 		sys.CopyFiles(clean, d, chosen)
+		// one run in four also finds what an OLDER release left in the stores' directories: snapshot files whose names
+		// carry a trace id (<end>-<start>.<traceid>.partial|kv). They are not snapshots of this release: the storage scan
+		// skips every one of them (and deletes at most 100 per walk), so more than 100 of them per directory are laid down,
+		// one per snapshot of the clean run and per trace id, with the real file's bytes.
+		legacy := 0
+		if si%4 == 1 {
+			legacy = layLegacy(clean, d, F, rng.Range(101, 120))
+		}
 		prod := rng.Chance(3, 4)
 		r := w.Run(d, sc.Req(prod, rng.Range(1, 3)), sys.Opts{Sched: rng.Fork(), Timeout: 12 * time.Second})
 		ans := nonEmpty(r)
 		rr := runRes{line: fmt.Sprintf("%s | subset %d/%d files mask=%x prod=%v", base, len(chosen), n, mask, prod), ans: ans, nt: len(chosen) > 0 && len(chosen) < n,
-			counts: []string{fmt.Sprintf("files:%d", min(n, 30)), fmt.Sprintf("prod:%v", prod), "err:" + r.ErrClass()}}
+			counts: []string{fmt.Sprintf("files:%d", min(n, 30)), fmt.Sprintf("prod:%v", prod), "err:" + r.ErrClass(), fmt.Sprintf("legacy-trace-id-files:%v", legacy > 0)}}
 		if strings.Contains(ans, "ERR:timeout") {
 			rr.fails = append(rr.fails, [2]string{"C07/request-never-completes", fmt.Sprintf("on the subset %v the request does not finish", chosen)})
 		} else if ans != ref {
@@ -228,11 +236,46 @@ func scenario(seed uint64, idx int, tier string, root string, fixed string, enc 
 	return out
 }
 
+// layLegacy writes, in the directory of every store snapshot of the clean run (present in the subset or not), files
+// named like that snapshot but with a trace id, until each such directory holds at least perDir of them; returns how many.
+func layLegacy(clean, d string, F []string, perDir int) int {
+	byDir := map[string][]string{}
+	for _, f := range F {
+		b := filepath.Base(f)
+		if strings.HasSuffix(b, ".partial.zst") || strings.HasSuffix(b, ".kv.zst") {
+			byDir[filepath.Dir(f)] = append(byDir[filepath.Dir(f)], f)
+		}
+	}
+	n := 0
+	for dir, fs := range byDir {
+		for k := 0; k*len(fs) < perDir; k++ {
+			for _, f := range fs {
+				b := filepath.Base(f)
+				ext := ".kv.zst"
+				if strings.HasSuffix(b, ".partial.zst") {
+					ext = ".partial.zst"
+				}
+				name := strings.TrimSuffix(b, ext) + fmt.Sprintf(".%016x", 0xabc0000+k) + ext
+				data, err := os.ReadFile(filepath.Join(clean, "store", f))
+				if err != nil {
+					data = []byte{}
+				}
+				dst := filepath.Join(d, "store", dir, name)
+				os.MkdirAll(filepath.Dir(dst), 0o755)
+				if os.WriteFile(dst, data, 0o644) == nil {
+					n++
+				}
+			}
+		}
+	}
+	return n
+}
+
 func main() {
 	o := common.ParseFlags()
 	out := common.NewOut(o.Out)
 	defer out.Finish()
-	out.Rule = "scenarios as in C01 (seeded graphs with stores, indexes, filtered modules, differing initial blocks; start/stop/finality/segment size); F = cache files left by a complete production run plus 0-2 other requests; the request is re-run on every subset of F when 2^|F| <= 24 (quick) / 400 (thorough), else on the empty set, the full set and seeded sparse/dense subsets, in production (3/4) or development mode, 1-3 workers, seeded completion order; non-trivial = proper non-empty subset; distinct by (scenario, subset mask)"
+	out.Rule = "scenarios as in C01 (seeded graphs with stores, indexes, filtered modules, differing initial blocks; start/stop/finality/segment size); F = cache files left by a complete production run plus 0-2 other requests; the request is re-run (one run in four with, in addition, more than 100 legacy files per store directory whose names carry a trace id) on every subset of F when 2^|F| <= 24 (quick) / 400 (thorough), else on the empty set, the full set and seeded sparse/dense subsets, in production (3/4) or development mode, 1-3 workers, seeded completion order; non-trivial = proper non-empty subset; distinct by (scenario, subset mask)"
 	root := filepath.Join(o.Out, "sys")
 	emit := func(rs []runRes, replay string) {
 		for _, r := range rs {
